@@ -10,7 +10,11 @@ OMP_NUM_THREADS 1 vs 8 (two persistent child processes), a young vs an old proce
 return bit-identical results and leave its arguments byte-identical.  Round 2 adds the in-place-overwrite
 history probe (call on A, overwrite the SAME objects with B, call again, compare with a call on fresh B) for
 every routine, the same probe on files rewritten at the same path for the loaders, and NumPy's slice-store
-semantics against Model/Alloc.v.
+semantics against Model/Alloc.v.  Round 3s adds three streams that do not depend on the translator seeing a change: the builder grid
+(`bgrid`: every builder x container x dtype x prior, argument snapshot + call twice + fresh argument), RaggedArray call
+histories (`rahist`: observer -> mutator -> observer programs against a freshly constructed array and an unobserved twin)
+and the single-feature-pair thread stream (`thr`: joint_counts / mi_matrix on >= 200 000 frames with 1/4/8/16 threads
+against pure NumPy counting).
 """
 import atexit, copy, hashlib, json, os, shutil, subprocess, sys, tempfile, threading
 from fractions import Fraction as F
@@ -52,7 +56,25 @@ RULE = ("(a) one `sites` case: translator/sites.py scans every .py/.pyx under en
         "after the conditions above the argument objects are overwritten IN PLACE with B (ndarray cells, the attribute "
         "dictionary of a sparse matrix, RaggedArray._data), the routine is called again on the same objects and must "
         "return bit-for-bit what it returns on freshly built B. (f) `file` cases: ra.load and load_as_concatenated on files "
-        "that are rewritten at the same path (same mtime restored) between two calls, compared with a fresh path")
+        "that are rewritten at the same path (same mtime restored) between two calls, compared with a fresh path. Round 3s: "
+        "(g) `bgrid` cases: one count matrix, one builder (normalize/transpose/mle); for every container (ndarray, csr_matrix, "
+        "csr_array, csc, coo, lil, dok, bsr, dia) x dtype (int32, int64, float32, float64) x prior_counts (None, a scalar): "
+        "snapshot of the argument (type, dtype, values, stored-entry array) before and after each of two calls on the same "
+        "object, digest of both results and of the result on a freshly built equal argument -- all equal. (h) `rahist` "
+        "cases: a RaggedArray (int64/int32/float64/bool; nested or flat+lengths construction) receives a program of "
+        "observers (.starts, .lengths, len/size/shape, flatten, row, a[i, j] with negative rows, tuple-of-index-arrays, "
+        "ra.where(a), a[a > k], 2-d slices, a[:, j], a[[rows], c:d], a[i, c:d], row slices, row lists, a[a:b, [cols]]) and "
+        "mutators (append of rows / of a RaggedArray / of one row / of a flat list, a[i] = row, a[i, j] = v, tuple-of-arrays "
+        "store, 2-d slice store, a[i, c:d] = v, a[a > k] = v); 3 of 5 programs have the form offsets-reading observer -> "
+        "append(s) -> 2-d observers; every observation (value or exception type) must equal the same observation on a "
+        "RaggedArray newly constructed from the rows the array holds at that point, an observer must leave the array's state "
+        "(_data, lengths, rows) unchanged, and after every mutator outcome and state must equal those of a twin that received "
+        "the mutators only. (i) `thr` cases: joint_counts(x, y) with 1-d inputs, with (n, 1) inputs, joint_counts(x) alone, "
+        "and mi_matrix on one feature column (1-2 trajectories): 2-3 states, 200 000 - 1 000 000 frames (thorough: up to "
+        "3 000 000) drawn from a seed (uniform, or 85 % of the frames in state 0), int64/int32; four calls in each of four "
+        "children with OMP_NUM_THREADS = 1, 4, 8, 16; every table must equal np.bincount over the pair code (= np.histogram2d) "
+        "exactly, every mi value the one computed from that table. non-trivial := (g) some combination returned a value, "
+        "(h) an observation returned a value after a successful mutator, (i) all 16 calls returned")
 TRUSTED = ["translator/sites.py: the `where=` scan (ast for .py, token scan + per-call parse for .pyx), its tables of ufunc / "
            "reduction / allocator names, and the rule that a where= passed through **kwargs or a partial is not seen",
            "heap perturbation is best effort: it relies on NumPy's small-block cache (< 1024 bytes, exact size buckets) and "
@@ -67,7 +89,11 @@ TRUSTED = ["translator/sites.py: the `where=` scan (ast for .py, token scan + pe
            "dict/list mutated from functions, mutable defaults stored into, `global` outside the pool-initialiser idiom; "
            "instance attributes holding earlier results under other names are seen only by the overwrite probe",
            "in-place overwrite of a scipy sparse matrix = replacing its attribute dictionary (object identity kept); of a "
-           "RaggedArray = overwriting the cells of its _data (and of _array where that holds copies of the rows)"]
+           "RaggedArray = overwriting the cells of its _data (and of _array where that holds copies of the rows)",
+           "rahist: 'the rows the array holds' are read from its _data and lengths attributes; the freshly constructed "
+           "comparison array is RaggedArray(list of row copies); skipped when _data is not a 1-d non-object array or a row is empty",
+           "thr: a lost update needs threads that really run concurrently; 16 calls x >= 200 000 frames x 2-3 states per case "
+           "made every one of 24 multi-thread call groups lose counts on the seeded kernel, but this is a test, not a proof"]
 ASSUMPTIONS = ["masked operations: operands, mask and out already broadcast to one shape",
                "process-pool code paths (n_procs > 1) are not exercised"]
 
@@ -224,6 +250,8 @@ def _container(fmt, M):
     import scipy.sparse as sp
     if fmt == "dense":
         return M
+    if fmt.endswith("_array") or fmt.endswith("_matrix"):
+        return getattr(sp, fmt)(M)
     return sp.coo_matrix(M).asformat(fmt)
 
 
@@ -369,12 +397,15 @@ def c_wmi(a, p):
 
 def g_builder(rng):
     n = rng.choice([2, 3, 4, 6])
-    return {"C": _counts_matrix(rng, n), "fmt": rng.choice(["dense", "dense", "csr", "coo", "lil"]),
-            "prior": rng.choice([None, None, 0.5, 1]), "eq": rng.random() < 0.8}
+    return {"C": _counts_matrix(rng, n), "fmt": rng.choice(["dense", "dense", "csr", "csr", "csr_array", "coo", "lil", "csc"]),
+            "prior": rng.choice([None, None, None, 0.5, 1]), "eq": rng.random() < 0.8,
+            "dtype": rng.choice(["int64", "int32", "float64", "float64", "float32"])}
 
 
 def b_builder(p):
-    C = np.array(p["C"], dtype=float if p["fmt"] == "dense" else int)
+    # counts kept in an integer type (what assigns_to_counts produces) or in a floating-point type (weighted /
+    # rescaled counts): conversions such as asfptype() copy in the first case only
+    C = np.array(p["C"], dtype=p.get("dtype") or (float if p["fmt"] == "dense" else int))
     return {"C": _container(p["fmt"], C)}
 
 
@@ -1072,6 +1103,425 @@ def _execute_file(case):
 FILE_ROUTINES = {"ra.load": (g_file_ra, v_file_ra), "load_as_concatenated": (g_file_lac, v_file_lac)}
 
 
+# ============================================================================ round 3s: builder grid
+# every builder x container x dtype x prior on one count matrix: the argument must be left as it was (value, dtype,
+# stored entries), a second call on the same object and a call on a freshly built object must return the same digest
+BG_BUILDERS = ["normalize", "transpose", "mle"]
+BG_CONTAINERS = ["dense", "csr_matrix", "csr_array", "csc_matrix", "coo_matrix", "lil_matrix", "dok_matrix", "bsr_matrix",
+                 "dia_matrix"]
+BG_DTYPES = ["int32", "int64", "float32", "float64"]
+
+
+def _bg_snapshot(A):
+    """what the caller can see of a count matrix: type, dtype, shape, values and (sparse) the stored-entry array"""
+    import scipy.sparse as sp
+    if sp.issparse(A):
+        d = ["sp", type(A).__name__, str(A.dtype), list(A.shape), _canon(np.asarray(A.toarray()))]
+        raw = getattr(A, "data", None)
+        if isinstance(raw, np.ndarray) and raw.dtype != object:
+            d.append(_canon(raw))
+        return d
+    return _canon(A)
+
+
+def _bg_call(builder, A, prior, eq):
+    from enspara.msm import builders
+    try:
+        v = getattr(builders, builder)(A, prior_counts=prior, calculate_eq_probs=eq)
+    except Exception as ex:
+        return {"err": type(ex).__name__}, None
+    return {"digest": _digest(v)}, v
+
+
+def _execute_bgrid(case):
+    import warnings
+    warnings.filterwarnings("ignore")
+    out = {"combos": 0, "values": 0, "errors": {}, "fails": []}
+    for cont in BG_CONTAINERS:
+        for dt in BG_DTYPES:
+            for prior in (None, case["prior"]):
+                A = _container(cont, np.array(case["C"], dtype=dt))
+                s0 = _bg_snapshot(A)
+                r1, v1 = _bg_call(case["builder"], A, prior, case["eq"])
+                pv = _preview(v1) if v1 is not None else None
+                s1 = _bg_snapshot(A)
+                r2, _v = _bg_call(case["builder"], A, prior, case["eq"])
+                s2 = _bg_snapshot(A)
+                r3, _v = _bg_call(case["builder"], _container(cont, np.array(case["C"], dtype=dt)), prior, case["eq"])
+                out["combos"] += 1
+                if "digest" in r1:
+                    out["values"] += 1
+                else:
+                    out["errors"][r1["err"]] = out["errors"].get(r1["err"], 0) + 1
+                combo = {"container": cont, "dtype": dt, "prior": prior}
+                if s1 != s0 or s2 != s0:
+                    out["fails"].append(dict(combo, why="argument-mutated", before=_preview(np.array(case["C"], dtype=dt)),
+                                             after=_preview(A)))
+                if r2 != r1:
+                    out["fails"].append(dict(combo, why="repeat", first=r1, second=r2, first_value=pv))
+                if r3 != r1:
+                    out["fails"].append(dict(combo, why="fresh", first=r1, fresh=r3, first_value=pv))
+    out["fails"] = out["fails"][:12]
+    return out
+
+
+def _gen_bgrid(rng, builder):
+    n = rng.choice([2, 3, 4])
+    # mle: connected counts only (the Prinz iteration runs to max_iter = 10**5 sweeps on others: minutes, not a C19 matter)
+    C = _counts_matrix(rng, n, zero_p=0.35, connected=builder == "mle" or rng.random() < 0.8)
+    return {"kind": "bgrid", "builder": builder, "C": C, "prior": rng.choice([0.5, 1, 2]), "eq": rng.random() < 0.8}
+
+
+# ============================================================================ round 3s: RaggedArray call histories
+# observer -> mutator -> observer programs; every observation is compared with the same observation on a freshly
+# constructed RaggedArray holding the same rows, and the state after every mutator with a twin that received the
+# mutators only (no observation in between)
+RA_OBS = ["starts", "lengths", "len", "flatten", "row", "cell", "cells", "where_self", "getmask", "slice2d", "colint",
+          "listslice", "introwslice", "rowslice", "rowlist", "slicelist"]
+RA_OBS_STARTS = ["starts", "cell", "cells", "where_self", "getmask", "slice2d", "listslice"]   # read the row offsets
+RA_OBS_2D = ["cell", "cells", "where_self", "getmask", "slice2d", "colint", "listslice", "slicelist"]
+RA_MUT = ["append_rows", "append_rows", "append_ra", "append_one", "append_flat", "set_row", "set_cell", "set_cells",
+          "set_slice2d", "set_introwslice", "set_mask"]
+RA_APPEND = ["append_rows", "append_ra", "append_one"]
+
+
+def _ra_val(rng, dtype):
+    return rng.choice([0, 1]) if dtype == "bool" else rng.randint(-3, 6)
+
+
+def _ra_rows(rng, dtype, nrows=None):
+    nrows = nrows or rng.choice([1, 2, 2, 3])
+    return [[_ra_val(rng, dtype) for _ in range(rng.choice([1, 2, 3, 4]))] for _ in range(nrows)]
+
+
+def _ra_step(rng, name, dtype, nrows_hint, maxlen_hint):
+    """nrows_hint: number of rows the array is expected to have when the step runs (indices may still fall outside:
+    an IndexError is an outcome like any other and must not depend on the history either)"""
+    n, L = max(1, nrows_hint), max(1, maxlen_hint)
+    ri = lambda: rng.choice([rng.randrange(n), rng.randrange(n), -1, -rng.randint(1, n), n - 1])
+    ci = lambda: rng.choice([0, 0, rng.randrange(L), -1])
+    sl = lambda m: rng.choice([[None, None], [None, None], [rng.randrange(m + 1), None], [None, rng.randrange(m + 1)],
+                               [rng.randrange(m + 1), rng.randrange(m + 2)], [None, -1], [-rng.randint(1, m), None]])
+    if name in ("starts", "lengths", "len", "flatten", "where_self"):
+        return [name]
+    if name == "row":
+        return [name, ri()]
+    if name == "cell":
+        return [name, ri(), ci()]
+    if name == "cells":
+        k = rng.choice([1, 2, 3])
+        return [name, [ri() for _ in range(k)], [rng.choice([0, 0, -1]) for _ in range(k)], rng.choice(["array", "list"])]
+    if name == "getmask":
+        return [name, rng.choice([-4, 0, 1, 3])]
+    if name == "slice2d":
+        return [name] + sl(n) + sl(L)
+    if name == "colint":
+        return [name, rng.choice([0, 0, -1])]
+    if name == "listslice":
+        return [name, [ri() for _ in range(rng.choice([1, 2]))]] + sl(L)
+    if name == "introwslice":
+        return [name, ri()] + sl(L)
+    if name == "rowslice":
+        return [name] + sl(n)
+    if name == "rowlist":
+        return [name, [ri() for _ in range(rng.choice([1, 2, 3]))]]
+    if name == "slicelist":
+        return [name] + sl(n) + [[rng.choice([0, 0, -1]) for _ in range(rng.choice([1, 2]))]]
+    if name in ("append_rows", "append_ra"):
+        return [name, _ra_rows(rng, dtype), rng.choice(["array", "list"])]
+    if name == "append_one":
+        return ["append_rows", _ra_rows(rng, dtype, 1), "array"]
+    if name == "append_flat":
+        return [name, _ra_rows(rng, dtype, 1)[0]]
+    if name == "set_row":
+        return [name, ri(), _ra_rows(rng, dtype, 1)[0]]
+    if name == "set_cell":
+        return [name, ri(), ci(), _ra_val(rng, dtype)]
+    if name == "set_cells":
+        k = rng.choice([1, 2])
+        return [name, [ri() for _ in range(k)], [rng.choice([0, 0, -1]) for _ in range(k)], [_ra_val(rng, dtype) for _ in range(k)]]
+    if name == "set_slice2d":
+        return [name] + sl(n) + sl(L) + [_ra_val(rng, dtype)]
+    if name == "set_introwslice":
+        return [name, ri()] + sl(L) + [_ra_val(rng, dtype)]
+    if name == "set_mask":
+        return [name, rng.choice([0, 1, 3]), _ra_val(rng, dtype)]
+    raise KeyError(name)
+
+
+def _gen_rahist(rng):
+    dtype = rng.choice(["int64", "int64", "float64", "bool", "int32"])
+    rows = _ra_rows(rng, dtype)
+    if rng.random() < 0.2:
+        rows = [r[:len(rows[0])] + [0] * (len(rows[0]) - len(r)) for r in rows]      # equally long rows (2-d row block)
+    n, L = len(rows), max(len(r) for r in rows)
+    prog = []
+    shape = rng.choice(["starts-append-2d", "starts-append-2d", "starts-append-2d", "observe-set-observe", "random"])
+    obs = lambda pool: prog.append(["obs"] + _ra_step(rng, rng.choice(pool), dtype, n, L))
+
+    def mut(pool):
+        nonlocal n, L
+        st = _ra_step(rng, rng.choice(pool), dtype, n, L)
+        prog.append(["mut"] + st)
+        if st[0] in ("append_rows", "append_ra"):
+            n += len(st[1])
+            L = max([L] + [len(r) for r in st[1]])
+    if shape == "starts-append-2d":
+        obs(RA_OBS_STARTS)
+        for _ in range(rng.choice([1, 1, 2])):
+            mut(RA_APPEND)
+            if rng.random() < 0.3:
+                obs(RA_OBS_STARTS)
+        for _ in range(rng.choice([2, 3])):
+            obs(RA_OBS_2D)
+        if rng.random() < 0.5:
+            mut(["set_cell", "set_cells", "set_slice2d", "set_mask"])
+            obs(RA_OBS)
+    elif shape == "observe-set-observe":
+        obs(RA_OBS)
+        mut(["set_row", "set_cell", "set_cells", "set_slice2d", "set_introwslice", "set_mask"])
+        obs(RA_OBS_2D)
+        if rng.random() < 0.6:
+            mut(RA_APPEND)
+            obs(RA_OBS_2D)
+            obs(RA_OBS)
+    else:
+        for _ in range(rng.choice([3, 4, 6])):
+            if rng.random() < 0.55:
+                obs(RA_OBS)
+            else:
+                mut(RA_MUT)
+        obs(RA_OBS_2D)
+    return {"kind": "rahist", "rows": rows, "dtype": dtype, "build": rng.choice(["nested", "nested", "flat"]), "prog": prog}
+
+
+def _ra_np(vals, dtype):
+    return np.array(vals, dtype=dtype)
+
+
+def _ra_make(rows, dtype, build):
+    from enspara.ra.ra import RaggedArray
+    if build == "flat":
+        return RaggedArray(_ra_np([x for r in rows for x in r], dtype), lengths=[len(r) for r in rows])
+    return RaggedArray([_ra_np(r, dtype) for r in rows])
+
+
+def _ra_fresh(A):
+    """a newly constructed RaggedArray holding the rows A holds now (None when A's element store is not a plain 1-d
+    array -- nothing to compare with then)"""
+    from enspara.ra.ra import RaggedArray
+    d, ls = np.asarray(A._data), [int(x) for x in np.asarray(A.lengths)]
+    if d.dtype == object or d.ndim != 1 or sum(ls) != len(d) or len(ls) == 0:
+        return None
+    rows, s = [], 0
+    for n in ls:
+        rows.append(d[s:s + n].copy())
+        s += n
+    if any(len(r) == 0 for r in rows):
+        return None
+    return RaggedArray(rows)
+
+
+def _ra_state(A):
+    return _digest(["ra", _canon(np.asarray(A._data)), _canon(np.asarray(A.lengths)),
+                    [_canon(np.asarray(r)) for r in A._array]])
+
+
+def _sl(a, b):
+    return slice(a, b)
+
+
+def _ra_apply(A, st, dtype):
+    """one step on A; observers return a value, mutators None"""
+    from enspara.ra import ra as R
+    name, a = st[0], st[1:]
+    if name == "starts":
+        return A.starts
+    if name == "lengths":
+        return A.lengths
+    if name == "len":
+        return [len(A), A.size, list(A.shape)]
+    if name == "flatten":
+        return A.flatten()
+    if name == "row":
+        return A[a[0]]
+    if name == "cell":
+        return A[a[0], a[1]]
+    if name == "cells":
+        return A[(np.array(a[0]), np.array(a[1]))] if a[2] == "array" else A[(list(a[0]), list(a[1]))]
+    if name == "where_self":
+        return list(R.where(A))
+    if name == "getmask":
+        return A[A > a[0]]
+    if name == "slice2d":
+        return A[_sl(a[0], a[1]), _sl(a[2], a[3])]
+    if name == "colint":
+        return A[:, a[0]]
+    if name == "listslice":
+        return A[list(a[0]), _sl(a[1], a[2])]
+    if name == "introwslice":
+        return A[a[0], _sl(a[1], a[2])]
+    if name == "rowslice":
+        return A[_sl(a[0], a[1])]
+    if name == "rowlist":
+        return A[list(a[0])]
+    if name == "slicelist":
+        return A[_sl(a[0], a[1]), list(a[2])]
+    if name == "append_rows":
+        A.append([_ra_np(r, dtype) for r in a[0]] if a[1] == "array" else [list(_ra_np(r, dtype).tolist()) for r in a[0]])
+    elif name == "append_ra":
+        A.append(R.RaggedArray([_ra_np(r, dtype) for r in a[0]]))
+    elif name == "append_flat":
+        A.append(list(_ra_np(a[0], dtype).tolist()))
+    elif name == "set_row":
+        A[a[0]] = _ra_np(a[1], dtype)
+    elif name == "set_cell":
+        A[a[0], a[1]] = _ra_np([a[2]], dtype)[0]
+    elif name == "set_cells":
+        A[(np.array(a[0]), np.array(a[1]))] = _ra_np(a[2], dtype)
+    elif name == "set_slice2d":
+        A[_sl(a[0], a[1]), _sl(a[2], a[3])] = _ra_np([a[4]], dtype)[0]
+    elif name == "set_introwslice":
+        A[a[0], _sl(a[1], a[2])] = _ra_np([a[3]], dtype)[0]
+    elif name == "set_mask":
+        A[A > a[0]] = _ra_np([a[1]], dtype)[0]
+    else:
+        raise KeyError(name)
+    return None
+
+
+def _ra_outcome(A, st, dtype):
+    try:
+        v = _ra_apply(A, st, dtype)
+    except Exception as ex:
+        return {"err": type(ex).__name__}, None
+    if st[0] in RA_OBS:
+        return {"digest": _digest(v)}, v
+    return {"done": True}, None
+
+
+def _execute_rahist(case):
+    import warnings
+    warnings.filterwarnings("ignore")
+    dtype = case["dtype"]
+    A = _ra_make(case["rows"], dtype, case["build"])        # observed
+    B = _ra_make(case["rows"], dtype, case["build"])        # twin: receives the mutators only
+    out = {"fails": [], "steps": [], "fresh_compared": 0, "twin_compared": 0, "obs_after_append": 0, "obs_after_set": 0,
+           "touched_starts": False, "stale_pattern": False}
+    appended = setted = False
+    for k, step in enumerate(case["prog"]):
+        role, st = step[0], step[1:]
+        if role == "obs":
+            s0 = _ra_state(A)
+            F = _ra_fresh(A)
+            r, v = _ra_outcome(A, st, dtype)
+            out["steps"].append(r.get("err", "value"))
+            if _ra_state(A) != s0:
+                out["fails"].append({"why": "observer-changed-array", "step": k, "op": st})
+            if F is not None:
+                rf, vf = _ra_outcome(F, st, dtype)
+                out["fresh_compared"] += 1
+                if rf != r:
+                    out["fails"].append({"why": "fresh", "step": k, "op": st, "got": r.get("err", _preview(v)),
+                                         "fresh": rf.get("err", _preview(vf)),
+                                         "rows_now": _preview([np.asarray(x) for x in F._array])})
+            if "digest" in r:
+                out["obs_after_append"] += appended
+                out["obs_after_set"] += setted
+                if appended and out["touched_starts"] and st[0] in RA_OBS_2D:
+                    out["stale_pattern"] = True
+            if st[0] in RA_OBS_STARTS and not appended:
+                out["touched_starts"] = True
+        else:
+            r, _v = _ra_outcome(A, st, dtype)
+            rb, _v = _ra_outcome(B, st, dtype)
+            out["steps"].append(r.get("err", "done"))
+            out["twin_compared"] += 1
+            if r != rb or _ra_state(A) != _ra_state(B):
+                out["fails"].append({"why": "twin", "step": k, "op": st, "observed_array": [r.get("err", "done"), _preview(A)],
+                                     "unobserved_twin": [rb.get("err", "done"), _preview(B)]})
+                break
+            if "done" in r:
+                if st[0].startswith("append"):
+                    appended = True
+                else:
+                    setted = True
+    out["fails"] = out["fails"][:6]
+    return out
+
+
+# ============================================================================ round 3s: thread counts, one feature pair
+# joint_counts / mi_matrix with ONE feature against ONE feature, few states and many frames: the shape for which a
+# kernel that hands out frames (not features) to threads loses counts.  Inputs are rebuilt from a seed in every child.
+THR_CHILDREN = [("t1", 1), ("t4", 4), ("t8", 8), ("t16", 16)]
+
+
+def _gen_thr(rng, tier):
+    routine = rng.choice(["joint_counts", "joint_counts", "mi_matrix"])
+    T = rng.choice([200000, 400000, 1000000] if tier == "quick" else [200000, 500000, 1000000, 3000000])
+    return {"kind": "thr", "routine": routine, "T": T, "seed": rng.randrange(10 ** 6), "nx": rng.choice([2, 2, 3]),
+            "ny": rng.choice([2, 3]), "form": rng.choice(["1d", "1d", "col", "self"] if routine == "joint_counts" else ["col"]),
+            "dtype": rng.choice(["int64", "int64", "int32"]), "reps": 4, "skew": rng.choice([False, True]),
+            "ntraj": rng.choice([1, 2]) if routine == "mi_matrix" else 1}
+
+
+def _thr_arrays(c):
+    rs = np.random.RandomState(c["seed"])
+    T = c["T"]
+
+    def draw(n):
+        v = rs.randint(0, n, T)
+        if c["skew"]:      # most frames in state 0: every thread hammers the same cell
+            v = np.where(rs.random_sample(T) < 0.85, 0, v)
+        return v.astype(c["dtype"])
+    x, y = draw(c["nx"]), draw(c["ny"])
+    x[0], y[0] = c["nx"] - 1, c["ny"] - 1          # every state number occurs
+    return x, y
+
+
+def _thr_expected(c):
+    """pure NumPy counting: np.bincount over the pair code and np.histogram2d must agree"""
+    x, y = _thr_arrays(c)
+    if c["form"] == "self":
+        y, ny = x, c["nx"]
+    else:
+        ny = c["ny"]
+    t = np.bincount(x.astype(np.int64) * ny + y.astype(np.int64), minlength=c["nx"] * ny).reshape(c["nx"], ny)
+    h, _a, _b = np.histogram2d(x, y, bins=[np.arange(c["nx"] + 1) - 0.5, np.arange(ny + 1) - 0.5])
+    assert np.array_equal(t, h.astype(np.int64)) and int(t.sum()) == c["T"]
+    return [int(v) for v in t.ravel()]
+
+
+def _execute_thr(c):
+    import warnings
+    warnings.filterwarnings("ignore")
+    from enspara.info_theory import mutual_info as M
+    x, y = _thr_arrays(c)
+    if c["form"] == "col":
+        x, y = x[:, None].copy(), y[:, None].copy()
+    h0 = hashlib.sha256(x.tobytes() + y.tobytes()).hexdigest()
+    runs = []
+    for _ in range(c["reps"]):
+        try:
+            if c["routine"] == "joint_counts":
+                if c["form"] == "self":
+                    v = M.joint_counts(x, None, c["nx"])
+                else:
+                    v = M.joint_counts(x, y, c["nx"], c["ny"])
+                runs.append({"shape": list(v.shape), "dtype": str(v.dtype), "table": [int(t) for t in np.asarray(v).ravel()]})
+            else:
+                k = c["ntraj"]
+                cut = [len(x) * i // k for i in range(k + 1)]
+                Xs = [x[a:b] for a, b in zip(cut, cut[1:])]
+                Ys = [y[a:b] for a, b in zip(cut, cut[1:])]
+                v = M.mi_matrix(Xs, Ys, np.array([c["nx"]]), np.array([c["ny"]]), normalize=False)
+                runs.append({"shape": list(np.shape(v)), "dtype": str(np.asarray(v).dtype),
+                             "mi": [float(t).hex() for t in np.asarray(v, dtype=float).ravel()]})
+        except Exception as ex:
+            runs.append({"err": type(ex).__name__, "msg": str(ex)[:120]})
+    return {"runs": runs, "args_kept": hashlib.sha256(x.tobytes() + y.tobytes()).hexdigest() == h0}
+
+
 # ============================================================================ child processes
 class _Child:
     def __init__(self, threads, label):
@@ -1130,6 +1580,9 @@ def _child(label, threads):
     return _children[label]
 
 
+EXECUTORS = {"file": _execute_file, "bgrid": _execute_bgrid, "rahist": _execute_rahist, "thr": _execute_thr}
+
+
 def _worker_main():
     import logging, warnings
     logging.disable(logging.CRITICAL)
@@ -1142,7 +1595,7 @@ def _worker_main():
             continue
         case = json.loads(line)
         try:
-            r = _execute_file(case) if case.get("kind") == "file" else _execute(case)
+            r = EXECUTORS.get(case.get("kind"), _execute)(case)
         except Exception as ex:
             r = {"err": "Harness:" + type(ex).__name__, "msg": str(ex)[:300]}
         r["omp"] = os.environ.get("OMP_NUM_THREADS")
@@ -1260,6 +1713,18 @@ def generate(rng, tier):
         for _ in range(n_):
             p = g(rng)
             cases.append({"kind": "file", "routine": name, "params": p, "params_b": v(rng, p)})
+    # round 3s streams
+    for b in BG_BUILDERS:
+        for _ in range((2 if b == "mle" else 3) if tier == "quick" else 12):
+            cases.append(_gen_bgrid(rng, b))
+    for _ in range(150 if tier == "quick" else 1500):
+        cases.append(_gen_rahist(rng))
+    thr = [_gen_thr(rng, tier) for _ in range(8 if tier == "quick" else 40)]
+    for k, (routine, form) in enumerate([("joint_counts", "1d"), ("joint_counts", "col"), ("joint_counts", "self"),
+                                         ("mi_matrix", "col")]):
+        thr[k]["routine"], thr[k]["form"] = routine, form          # every shape occurs in every run
+        thr[k]["ntraj"] = thr[k]["ntraj"] if routine == "mi_matrix" else 1
+    cases += thr
     return cases
 
 
@@ -1341,6 +1806,10 @@ def run_impl(c):
         return _run_ufunc(c)
     if c["kind"] == "wbr":
         return _run_wbr(c)
+    if c["kind"] in ("bgrid", "rahist"):
+        return _child("t1", 1).call(c)
+    if c["kind"] == "thr":
+        return {lab: _child(lab, n).call(c) for lab, n in THR_CHILDREN}
     res = {}
     res["t1"] = _child("t1", 1).call(c)
     res["t8"] = _child("t8", 8).call(c)
@@ -1352,6 +1821,83 @@ def run_impl(c):
 
 
 CONDS = ["base", "repeat", "heap_nan", "heap_ff", "fresh_args"]
+
+
+def _oracle_bgrid(c, r):
+    name = "builders." + c["builder"]
+    if "err" in r:
+        return [("crash:" + name, "builder grid: %s (case %s)" % (r, json.dumps(c)[:300]))]
+    out = []
+    for f in r["fails"]:
+        what = "%s(%s %s, prior_counts=%s, calculate_eq_probs=%s) on counts %s" % (
+            name, f["container"], f["dtype"], f["prior"], c["eq"], json.dumps(c["C"]))
+        if f["why"] == "argument-mutated":
+            out.append(("argument-mutated:" + name, "%s changed its argument: it held %s and holds %s after the call"
+                        % (what, f["before"], f["after"])))
+        elif f["why"] == "repeat":
+            out.append(("history-dependence:" + name, "%s: a second call with the same object returned %s, the first %s (value %s)"
+                        % (what, f["second"], f["first"], str(f["first_value"])[:300])))
+        else:
+            out.append(("history-dependence:" + name, "%s: a call on a freshly built equal argument returned %s, the first call %s"
+                        % (what, f["fresh"], f["first"])))
+    return out
+
+
+def _oracle_rahist(c, r):
+    if "err" in r:
+        return [("crash:RaggedArray.history", "%s (case %s)" % (r, json.dumps(c)[:400]))]
+    out = []
+    head = "RaggedArray(%s %s, built %s) after steps %s: " % (c["dtype"], json.dumps(c["rows"]), c["build"], json.dumps(c["prog"])[:500])
+    for f in r["fails"]:
+        pre = head + "step %d %s " % (f["step"], json.dumps(f["op"]))
+        if f["why"] == "observer-changed-array":
+            out.append(("argument-mutated:RaggedArray." + f["op"][0], pre + "is a read but changed the array"))
+        elif f["why"] == "fresh":
+            out.append(("history-dependence:RaggedArray." + f["op"][0],
+                        pre + "gave %s; the same lookup on a newly constructed RaggedArray with the same rows %s gives %s"
+                        % (f["got"], f["rows_now"], f["fresh"])))
+        else:
+            out.append(("history-dependence:RaggedArray." + f["op"][0],
+                        pre + "left the array that had been looked at before as %s and its twin that had not as %s"
+                        % (f["observed_array"], f["unobserved_twin"])))
+    return out
+
+
+def _oracle_thr(c, r):
+    name = c["routine"] + ".single-pair"
+    out = []
+    try:
+        exp = _thr_expected(c)
+    except Exception as ex:
+        return [("oracle-exception", "NumPy reference failed: %s" % ex)]
+    desc = "%s on %d frames (seed %d, %s, form %s, states %dx%d, skew %s)" % (
+        c["routine"], c["T"], c["seed"], c["dtype"], c["form"], c["nx"], c["ny"], c["skew"])
+    ref = None
+    if c["routine"] == "mi_matrix":
+        from enspara.info_theory import mutual_info as M
+        ny = c["ny"]
+        v = M.mutual_information(np.array(exp, dtype=np.uint32).reshape(1, 1, c["nx"], ny))
+        ref = [float(t).hex() for t in np.asarray(v, dtype=float).ravel()]
+    for lab, n in THR_CHILDREN:
+        w = r.get(lab, {})
+        if "err" in w or "runs" not in w:
+            out.append(("crash:" + name, "%s child: %s; %s" % (lab, w, desc)))
+            continue
+        if not w.get("args_kept"):
+            out.append(("argument-mutated:" + name, "%s child: an argument changed; %s" % (lab, desc)))
+        for k, run in enumerate(w["runs"]):
+            if "err" in run:
+                out.append(("crash:" + name, "%s child, call %d: %s; %s" % (lab, k, run, desc)))
+                break
+            got, want = (run["table"], exp) if ref is None else (run["mi"], ref)
+            if got != want:
+                first = r.get("t1", {}).get("runs", [{}])[0]
+                kind = "threads" if n > 1 and first.get("table" if ref is None else "mi") == want else "history"
+                out.append(("%s-dependence:%s" % (kind, name),
+                            "%s with OMP_NUM_THREADS=%d, call %d of %d returned %s; counting with NumPy (bincount = histogram2d) "
+                            "and the single-thread run give %s" % (desc, n, k + 1, len(w["runs"]), got, want)))
+                break
+    return out
 
 
 def oracle(c, r):
@@ -1395,6 +1941,12 @@ def oracle(c, r):
         if bad_shape != ("err" in r):
             out.append(("numpy-masked-shape", "%s: %s" % (c, r)))
         return out
+    if c["kind"] == "bgrid":
+        return _oracle_bgrid(c, r)
+    if c["kind"] == "rahist":
+        return _oracle_rahist(c, r)
+    if c["kind"] == "thr":
+        return _oracle_thr(c, r)
     name = c["routine"]
     for lab in ("t1", "t8", "young"):
         w = r.get(lab, {})
@@ -1530,6 +2082,12 @@ def nontrivial(c, r):
         return "err" not in r and any(c["m"]) and not all(c["m"])
     if c["kind"] == "wbr":
         return "err" not in r and c["n"] > 0 and len(_wbr_prog(c)) > 0
+    if c["kind"] == "bgrid":
+        return "err" not in r and r.get("values", 0) > 0
+    if c["kind"] == "rahist":
+        return "err" not in r and r.get("obs_after_append", 0) + r.get("obs_after_set", 0) > 0
+    if c["kind"] == "thr":
+        return all("runs" in r.get(lab, {}) and all("err" not in x for x in r[lab]["runs"]) for lab, _n in THR_CHILDREN)
     return _ok_everywhere(r)
 
 
@@ -1582,6 +2140,29 @@ def tags(c, r):
         return ["wbr-" + c["shape"], "wbr-all-written" if r["indep"] else "wbr-cell-left-unwritten"]
     if c["kind"] == "ufunc":
         return ["ufunc-" + c["mode"] + ("-rejected" if "err" in r else "")]
+    if c["kind"] == "bgrid":
+        if "err" in r:
+            return ["exception-or-crash"]
+        t = ["bgrid:" + c["builder"]]
+        if r["values"] == len(BG_CONTAINERS) * len(BG_DTYPES) * 2:
+            t.append("bgrid-every-combination-returned-a-value")
+        return t
+    if c["kind"] == "rahist":
+        if "err" in r:
+            return ["exception-or-crash"]
+        t = ["rahist"]
+        t += ["rahist-observed-after-append"] if r["obs_after_append"] else []
+        t += ["rahist-observed-after-setitem"] if r["obs_after_set"] else []
+        t += ["rahist-offsets-read-then-append-then-2d-lookup"] if r["stale_pattern"] else []
+        t += ["rahist-compared-with-fresh"] if r["fresh_compared"] else []
+        t += ["rahist-compared-with-twin"] if r["twin_compared"] else []
+        t += ["rahist-step-raises"] if any(x not in ("value", "done") for x in r["steps"]) else []
+        return t
+    if c["kind"] == "thr":
+        ok = nontrivial(c, r)
+        t = ["thr:%s-%s" % (c["routine"], c["form"])] if ok else ["exception-or-crash"]
+        t += ["threads-%d" % n for lab, n in THR_CHILDREN if isinstance(r.get(lab), dict) and r[lab].get("omp") == str(n)]
+        return t
     t = ["run:" + c["routine"]]
     ps = _probe_state(r)
     t.append("overwrite-probe-" + ps)
@@ -1609,7 +2190,11 @@ ESSENTIAL_TAGS = (["sites-scan", "masked-site-guarded", "ufunc-out", "ufunc-noou
                   + ["value:" + n for n in ROUTINES] + ["masked-out-cells:" + n for n in sorted(MASKED_ROUTINES)]
                   + ["cache-scan-clean", "wbr-random", "wbr-tile", "wbr-enum", "wbr-gap", "wbr-oob-rejected", "wbr-all-written",
                      "wbr-cell-left-unwritten", "overwrite-probe-changed", "file-rewritten-at-same-path"]
-                  + ["overwrite-probe:" + n for n in ROUTINES] + ["value:" + n for n in ("ra.load", "load_as_concatenated")])
+                  + ["overwrite-probe:" + n for n in ROUTINES] + ["value:" + n for n in ("ra.load", "load_as_concatenated")]
+                  + ["bgrid:" + b for b in BG_BUILDERS] + ["bgrid-every-combination-returned-a-value", "rahist-observed-after-append",
+                     "rahist-observed-after-setitem", "rahist-offsets-read-then-append-then-2d-lookup", "rahist-compared-with-fresh",
+                     "rahist-compared-with-twin", "thr:joint_counts-1d", "thr:joint_counts-col", "thr:joint_counts-self",
+                     "thr:mi_matrix-col", "threads-4", "threads-16"])
 
 
 def search(rng, tier):
